@@ -588,4 +588,82 @@ class Qcow2Io(IoBound):
                 "place": case.get("place")}
 
 
-SUITES = {"vmdk_io": VmdkIo(), "qcow2_io": Qcow2Io(), "vhd_huge": VhdHuge(), "vdi_huge": VdiHuge(), "vhdx_huge": VhdxHuge(), "hds_huge": HdsHuge()}
+
+class Qcow2L2Cache(Suite):
+    """Amortised metadata I/O: small reads that cycle over a handful of L2 tables (far fewer than any reasonable cache holds)
+    load each table once, whatever the cluster size.  Images of 6..12 L2 tables with 64 KiB, 1 MiB and 2 MiB clusters (up to
+    6 TiB virtual), one data cluster per table, three round-robin passes of 4 KiB reads."""
+    name = "qcow2_l2cache"
+    fmt = "qcow2"
+    per_case_timeout = 120.0
+
+    def generate(self, rng, tier):
+        out = []
+        for cb in (16, 20, 21) if tier != "thorough" else (12, 16, 18, 20, 21, 21):
+            cs = 1 << cb
+            l2n = cs // 8
+            ntab = rng.randint(6, 12)
+            clusters, l2tabs = {}, {}
+            for k in range(ntab):
+                l2tabs[str(k)] = (4 + k) * cs
+                g = k * l2n + rng.randrange(0, l2n)
+                clusters[str(g)] = {"t": "normal", "host": (40 + k) * cs, "copied": True}
+            case = {"cluster_bits": cb, "ext": False, "datafile": False, "version": 3, "header_length": 104,
+                    "l1_size": ntab, "l1_offset": cs, "rc_offset": 3 * cs, "l2tabs": l2tabs, "clusters": clusters,
+                    "backing": None, "backing_name_off": 200, "size": ntab * l2n * cs, "salt": rng.randrange(1 << 30),
+                    "file_size": (60 + ntab) * cs, "data_size": 0}
+            order = sorted(int(g) for g in clusters)
+            reqs = []
+            for rnd in range(3):
+                for g in order:
+                    reqs.append([g * cs + 4096 * rng.randrange(0, cs // 4096), 4096])
+            case["reqs2"] = reqs
+            out.append(case)
+        return out
+
+    def impl(self, case):
+        from dissect.hypervisor.disk import qcow2 as Q
+        fh, data, backing = c01.build_files(case)
+        try:
+            q = Q.QCow2(fh)
+        except Exception as e:  # noqa: BLE001
+            return {"open": {"exc": type(e).__name__}}
+        fh.reset_counters()
+        total, wrong = 0, 0
+        for a, n in case["reqs2"]:
+            q.seek(a)
+            r = q.read(n)
+            total += len(r)
+            if r != c01.intent_bytes(case, a, n, (fh, data, backing)):
+                wrong += 1
+        return {"open": None, "bytes": fh.bytes_read, "returned": total, "wrong": wrong,
+                "max_read": max([x[3] for x in fh.log if x[0] == "read"] or [0])}
+
+    def judge(self, case, impl_res, coq_val):
+        if impl_res.get("outcome"):
+            return [Finding("impl_fault", f"qcow2: implementation {impl_res['outcome']}", "qcow2:l2cache:" + impl_res["outcome"])]
+        if impl_res.get("open") is not None:
+            return [Finding("impl_vs_spec", f"qcow2: well-formed image refused: {impl_res['open']}", "qcow2:l2cache:open")]
+        fs = []
+        cs = 1 << case["cluster_bits"]
+        ntab = len(case["l2tabs"])
+        nreq = len(case["reqs2"])
+        # every table once + the L1 table + per request the stream buffer around the 4 KiB asked for
+        bound = ntab * cs + 8 * case["l1_size"] + cs + nreq * (4096 + 2 * 65536)
+        if impl_res["bytes"] > bound:
+            fs.append(Finding("impl_vs_spec", f"qcow2: {nreq} reads of 4 KiB cycling over {ntab} L2 tables of {cs} bytes read "
+                              f"{impl_res['bytes']} bytes from the image; loading each table once needs at most {bound}",
+                              "qcow2:l2cache:bytes"))
+        if impl_res["wrong"]:
+            fs.append(Finding("impl_vs_spec", f"qcow2: {impl_res['wrong']} of {nreq} reads returned wrong bytes",
+                              "qcow2:l2cache:content"))
+        return fs
+
+    def nontrivial(self, case, impl_res, coq_val):
+        return core.sha(core.jdump(case).encode())
+
+    def dist(self, case):
+        return {"cluster_bits": case["cluster_bits"], "tables": len(case["l2tabs"])}
+
+
+SUITES = {"qcow2_l2cache": Qcow2L2Cache(), "vmdk_io": VmdkIo(), "qcow2_io": Qcow2Io(), "vhd_huge": VhdHuge(), "vdi_huge": VdiHuge(), "vhdx_huge": VhdxHuge(), "hds_huge": HdsHuge()}
